@@ -1,7 +1,7 @@
 ------------------------------ MODULE MC_PushC ------------------------------
 (* Server push seen by a client: promises on open, reset and finished parents, re-used promised ids, the    *)
 (* promised stream while reserved (own INITIAL_WINDOW_SIZE / ENABLE_PUSH changes and their ACKs), response  *)
-(* and padded DATA on it, local resets racing all of these.                                                  *)
+(* and padded DATA on it, local resets racing all of these; the peer resetting the parent before it pushes.  *)
 EXTENDS Scn
 mcRoles == {"c"}
 mcCallsS == {}
@@ -13,7 +13,9 @@ mcAdvS == {}
 mcAdvC ==
   Singles({APP(1, 2, "req_get_b"), APP(3, 2, "req_get_b"), APP(1, 4, "req_get_b"), APP(2, 4, "req_get_b"), AAck,
            AH(2, "resp200", FALSE), AH(2, "resp200", TRUE), AH(1, "resp200", TRUE),
-           AD(2, 2, FALSE, -1), AD(2, 2, FALSE, 2), AD(1, 2, FALSE, 3), ARst(2, 8), AWU(2, 5)})
+           AD(2, 2, FALSE, -1), AD(2, 2, FALSE, 2), AD(1, 2, FALSE, 3), ARst(2, 8), ARst(1, 8), AWU(2, 5),
+           \* END_STREAM and priority fields on the response of a pushed stream (closes it: C07 related events)
+           AHP(2, "resp200", TRUE, <<5, 0, FALSE>>)})
 mcSetup == Handshake("c", <<>>) \o <<CCall("c", CHdr(1, "req_get", FALSE)), CCall("c", CHdr(3, "req_get", TRUE))>>
 mcQSids == <<1, 2, 3>>
 mcCfgC == DefaultCfg
